@@ -83,6 +83,7 @@ func main() {
 	tags := flag.String("tags", "verif", "build tags")
 	jobs := flag.Int("j", 12, "parallel functions")
 	quant := flag.Bool("slicecontents", false, "model slice contents across append (quantified)")
+	cross := flag.Bool("cross", false, "thorough: every obligation is also run alone on all three solvers; any 'sat' is a disagreement")
 	info := flag.String("info", "", "print loops and call sites of functions matching this regexp and exit")
 	flag.Parse()
 	t0 := time.Now()
@@ -92,6 +93,7 @@ func main() {
 		os.Exit(2)
 	}
 	eng.timeoutS = *timeout
+	eng.thorough = *cross
 	eng.dumpDir = *dump
 	if *dump != "" {
 		os.MkdirAll(*dump, 0755)
